@@ -156,12 +156,50 @@ pub fn disordered_bucket_case(r: &mut Rng, early_first: bool) -> String {
     format!("{{| c_self := {}; c_univ := {}; c_steps := [{}] |}}", n_hex(&self_id), univ_coq(&u), out.join(";\n "))
 }
 
+/// a known id that turns up at another address: the per-IP rules apply to the move as to any newcomer (no second node
+/// with the same 21-bit prefix on that IP)
+pub fn moving_ip_case(r: &mut Rng) -> String {
+    let self_id = id20(r);
+    let x = id_at_distance(&self_id, 160, r);
+    // y shares x's first 21 bits (and more): same bucket, same prefix
+    let mut y = x;
+    y[19] ^= 0x5a;
+    y[10] ^= 0x11;
+    let (ip_a, ip_b) = (0x0a00_0001u32, 0x0a00_0002u32);
+    let u: Vec<UNode> = vec![
+        UNode { id: x, ip: ip_a, port: 1000 },
+        UNode { id: y, ip: ip_b, port: 1000 },
+        UNode { id: x, ip: ip_b, port: 1001 },
+        UNode { id: y, ip: ip_a, port: 1001 },
+    ];
+    let mut t = RoutingTable::new(Id::from(self_id));
+    let mut now: u64 = 1000;
+    let mut out: Vec<String> = Vec::new();
+    for k in [0usize, 1, 2, 3, 0, 2] {
+        now += 1000;
+        simclock::set_ms(now);
+        let ret = t.add(u[k].node());
+        let nodes = t.to_owned_nodes();
+        out.push(format!(
+            "{{| s_now := {}; s_op := OAdd {}%nat; s_ret := {}; s_size := {}; s_empty := {}; s_dump := {}; s_boot := None |}}",
+            z(now as i128),
+            k,
+            boolean(ret),
+            t.size(),
+            boolean(t.is_empty()),
+            idx_list(&u, &nodes)
+        ));
+    }
+    format!("{{| c_self := {}; c_univ := {}; c_steps := [{}] |}}", n_hex(&self_id), univ_coq(&u), out.join(";\n "))
+}
+
 pub fn generate(seed: u64, scale: usize) -> Cases {
     let mut r = Rng::new(seed ^ 0xC12);
     let mut cases = Cases::new();
     let shapes: &[(usize, usize, usize)] = &[(3, 30, 1), (8, 60, 2), (30, 120, 3), (45, 150, 8), (60, 200, 8), (25, 200, 1), (70, 250, 4)];
     cases.push("disordered_bucket_fresh_head", disordered_bucket_case(&mut r, true));
     cases.push("disordered_bucket_stale_head", disordered_bucket_case(&mut r, false));
+    cases.push("known_id_moves_to_an_occupied_ip", moving_ip_case(&mut r));
     for _ in 0..(3 * scale.max(1)) {
         for &(n, steps, ips) in shapes {
             cases.push(&format!("n{}_s{}", n, steps), one_case(&mut r, n, steps, ips));
